@@ -211,13 +211,16 @@ def closure(layers, l):
 
 
 def gen_world(rng, n_layers=None, tests_per_layer=(0, 4), kinds=None, p_fault=0.25, p_write=0.3,
-              allow_notimpl=True, import_errors=False, nested=False):
+              allow_notimpl=True, import_errors=False, nested=False, layout=None):
     n_layers = rng.choice([1, 2, 3, 3, 4, 5]) if n_layers is None else n_layers
     layers = gen_layers(rng, n_layers, with_unit=True, p_fault=p_fault, allow_notimpl=allow_notimpl)
     tok = [1]
     tests = []
     modules = {}
     modnames = ["tests", "pa.tests", "pb.tests"][:rng.choice([1, 1, 2, 3])]
+    if layout is not None:
+        # another shape of the tree below the search path (see LAYOUTS)
+        modnames = list(layout["modnames"])
     for m in modnames:
         modules[m] = {"suites": [], "importError": False}
     tid = 0
@@ -256,6 +259,10 @@ def gen_world(rng, n_layers=None, tests_per_layer=(0, 4), kinds=None, p_fault=0.
         modules["pz.tests"] = {"suites": [], "importError": rng.choice(
             [True, True, "sysexit0", "sysexit3", "base", "suite:error", "suite:sysexit0"])}
     world = {"layers": layers, "tests": tests, "modules": modules}
+    if layout is not None:
+        for k_ in ("plainDirs", "aliases"):
+            if layout.get(k_):
+                world[k_] = layout[k_]
     if rng.random() < 0.12:
         # the code under test leaves an object that is not a string on sys.path (a pathlib.Path: legal, the import
         # system skips it) - from the moment the test modules are imported
@@ -292,6 +299,58 @@ def gen_opts(rng, allow=("repeat", "stop", "buffer", "j", "verbose", "shuffle"))
     return o
 
 
+# shapes of the tree below the search path other than <dir>/tests.py, <dir>/pa/tests.py, <dir>/pb/tests.py:
+# a tests *package* (its test_*.py files are test modules), plain directories (no __init__.py: namespace packages)
+# below a package or below a tests package, and directories that are reachable under two names (a symbolic link
+# to a package of the same tree: "walked like real ones")
+LAYOUTS = [
+    {"modnames": ["tests", "pa.tests.test_a", "pa.tests.fix.tests"], "plainDirs": ["pa/tests/fix"]},
+    {"modnames": ["pa.tests.test_a", "pa.tests.sub.tests", "pa.tests.fix.deep.tests"],
+     "plainDirs": ["pa/tests/fix", "pa/tests/fix/deep"]},
+    {"modnames": ["pa.samples.tests", "pa.tests.test_b", "pa.tests.regress.tests"], "plainDirs": ["pa/samples", "pa/tests/regress"]},
+    {"modnames": ["pa.tests", "pz.tests", "tests"], "aliases": {"pz": "pa"}},
+    {"modnames": ["pb.tests", "pa.tests"], "aliases": {"pa": "pb"}},
+    {"modnames": ["pa.sub.tests", "pa.tests", "pa.zlink.tests"], "aliases": {"pa/zlink": "pa/sub"}},
+]
+
+
+def shape_relpath_chdir(rng, w, o):
+    """a relative search path, tests (in the layers run first) that leave the process in another directory, and a
+    layer that cannot be torn down so that the rest is resumed in subprocesses, one after another"""
+    o["relpath"] = True
+    o["processes"] = 1
+    non_unit = sorted([k for k, l in enumerate(w["layers"]) if l["kind"] != "unit"], key=lambda k: layer_name(w, k))
+    if non_unit:
+        w["layers"][non_unit[0]]["tearDown"] = True
+        w["layers"][non_unit[0]]["tearDownFaults"] = [[999999, 2]]
+    for t in w["tests"]:
+        if rng.random() < 0.5 and not t.get("doctest"):
+            t["body"]["chdir"] = True
+
+
+def shape_substring_names(rng, w, o, parallel=False):
+    """layer names that contain one another (S, Sx, Sxx ...; as regular expressions each finds itself in the
+    later ones), every layer with a test, run in subprocesses (-j N, or layers that cannot be torn down)"""
+    nonunit = [l for l in w["layers"] if l["kind"] != "unit"]
+    for k, l in enumerate(nonunit):
+        l["module"] = "wlayers"
+        l["name"] = "S" + "x" * k
+        l["setUp"] = l["tearDown"] = True
+        l.pop("falsy", None)
+        if not parallel and k < len(nonunit) - 1 and rng.random() < 0.7:
+            l["tearDownFaults"] = [[999999, 2]]
+    have = {t["layer"] for t in w["tests"]}
+    for li, l in enumerate(w["layers"]):
+        if l["kind"] != "unit" and li not in have:
+            t = gen_test(rng, max([x["id"] for x in w["tests"]] + [0]) + 1, [1], kind="pass", p_write=0.0)
+            t["layer"], t["module"] = li, next(iter(w["modules"]))
+            w["tests"].append(t)
+            w["modules"][t["module"]]["suites"].append({"t": "leaf", "id": t["id"], "lyr": li})
+    o["processes"] = rng.choice([2, 3]) if parallel else 1
+    o["stopOnError"] = False
+    o.pop("layer", None)
+
+
 NEUTRAL_OPTIONS = [["--no-color"], ["-C"], ["--auto-color"], ["--no-progress"], ["--auto-progress"], ["--slow-test", "0.5"],
                    ["-1"], ["--show-secondary-failures"], ["--hide-secondary-failures"], ["--udiff"], ["--ndiff"], ["--cdiff"],
                    ["--exit-with-status"], ["--require-unique"], ["--gc-after-test"], ["--slow-test=100"], ["--progress"], ["-p"]]
@@ -307,17 +366,26 @@ def materialize(world, d):
         json.dump(world, f)
     with open(os.path.join(d, "ztr_run.py"), "w") as f:
         f.write(RUN_SCRIPT)
+    plain = set(world.get("plainDirs") or [])
+    aliases = world.get("aliases") or {}
     for m in world["modules"]:
         parts = m.split(".")
+        rel = "/".join(parts[:-1])
+        if any(rel == a or rel.startswith(a + "/") for a in aliases):
+            continue          # reached through the link (the file of the link's target serves both names)
         p = d
-        for pkg in parts[:-1]:
+        for k_, pkg in enumerate(parts[:-1]):
             p = os.path.join(p, pkg)
             os.makedirs(p, exist_ok=True)
             init = os.path.join(p, "__init__.py")
-            if not os.path.exists(init):
+            if not os.path.exists(init) and "/".join(parts[:k_ + 1]) not in plain:
                 open(init, "w").close()
         with open(os.path.join(p, parts[-1] + ".py"), "w") as f:
             f.write(MODULE_SRC)
+    for link, target in aliases.items():
+        lp = os.path.join(d, link)
+        if not os.path.lexists(lp):
+            os.symlink(os.path.relpath(os.path.join(d, target), os.path.dirname(lp)), lp)
 
 
 def cli_args(d, o, extra=()):
@@ -493,7 +561,8 @@ def discovered_groups(world, accept=None, eligible=None):
     unit = next(i for i, l in enumerate(world["layers"]) if l["kind"] == "unit")
     order = sorted(world["modules"], key=lambda m: m.replace(".", "/") + ".py")
     # discovery walks directories: files of a directory before its sub-directories
-    order = sorted(world["modules"], key=lambda m: (len(m.split(".")) > 1, m.split(".")))
+    # (pre-order walk, directories and files sorted by name)
+    order = sorted(world["modules"], key=lambda m: [(1, x) for x in m.split(".")[:-1]] + [(0, m.split(".")[-1])])
     groups = []
     index = {}
     nerr = 0
